@@ -931,7 +931,9 @@ class Tensor:
         relationship with the view-tensor since these are measures of "cause and effects"
         associated with varying elements of data (albeit infinitesmaly).
         """
-        if self._base is None:
+        if self._base is None or self._base.constant:
+            # a constant base never has a gradient for its views to window onto:
+            # a non-constant view of it reports the gradient it received itself
             return self._grad
 
         if (
